@@ -131,7 +131,8 @@ pub struct GatewayBinder {
 
 impl GatewayBinder {
     pub fn new(inst: &J, init: &J) -> GatewayBinder {
-        let cx = Ctx::new();
+        let mut cx = Ctx::new();
+        cx.ledger_step = 5;
         let scale = &inst["scale"];
         let mut b = GatewayBinder {
             cx,
